@@ -272,6 +272,13 @@ impl Header {
         Ok(self)
     }
 
+    /// Used by tools that copy records into another blob, where the record gets a new position
+    pub(crate) fn with_blob_offset(mut self, blob_offset: u64) -> bincode::Result<Self> {
+        self.blob_offset = blob_offset;
+        self.update_checksum()?;
+        Ok(self)
+    }
+
     fn check_magic_byte(&self) -> Result<()> {
         if self.magic_byte == RECORD_MAGIC_BYTE {
             Ok(())
